@@ -29,6 +29,7 @@ RULE = ("E2: breadth-first search over operation histories of real Bec2File obje
 ASSUMPTIONS = [
     "canonical-state merging assumes operations depend only on the hashed fields plus the randomness stream; hidden library-global state is still "
     "caught because every check is phrased per transition (draws consumed by this operation, points new in this history)",
+    "the same encryptor objects are passed to every Write of a history (instance-level caches are therefore visible, class- and module-level ones too)",
     "os.urandom is the only entropy source of the code under test (checked: plug-in random_bytes and ecdsa.util.randrange look it up at call time)",
 ]
 
@@ -68,6 +69,7 @@ class St:
         self.counter = 0
         self.keys = []                # session keys of all objects created in this history
         self.points = []              # ephemeral points of all packed ECC blocks in this history
+        self.encs = encryptors()      # the caller's encryptor objects live as long as the history (as in the appnotes)
 
 
 KINDS = {1: "cust", 3: "ecc", 2: "upd"}
@@ -146,7 +148,7 @@ def step(st, op):
             return None
         s = io.StringIO()
         with rnd:
-            obj.write_file(s, encryptors())
+            obj.write_file(s, st.encs)
         st.counter = rnd.counter
         text = s.getvalue()
         binary = bytes.fromhex("".join(text.split("\n\n", 1)[1].split()))
